@@ -154,6 +154,7 @@ func (h *helper) body() *ast.BlockStmt {
 }
 
 type normalizer struct {
+	curSig  *types.Signature // signature of the function being rewritten (nil when unknown)
 	fset    *token.FileSet
 	helpers map[*types.Func]*helper
 	locals  map[types.Object]*helper // local closures by their variable
@@ -500,8 +501,8 @@ func (nz *normalizer) hygienic(h *helper, p *packages.Package, f *ast.File, pos 
 		for _, id := range h.free {
 			obj := h.pkg.TypesInfo.Uses[id]
 			v, isVar := obj.(*types.Var)
-			if !isVar || v.IsField() || v.Parent() == nil || v.Parent() == h.pkg.Types.Scope() {
-				continue
+			if !isVar || v.IsField() || v.Parent() == nil || v.Parent() == h.pkg.Types.Scope() || v.Parent().Parent() == types.Universe {
+				continue // fields and package-level variables (of any package: binary.BigEndian) are not captured
 			}
 			if h.lit.Pos() <= v.Pos() && v.Pos() < h.lit.End() {
 				continue // the closure's own parameters and locals
@@ -598,6 +599,86 @@ func paramList(h *helper) (names []string, typesOf []types.Type) {
 
 // inlineStmts builds the statements replacing a call in statement context. results are the names of the temporaries.
 func (nz *normalizer) inlineStmts(h *helper, p *packages.Package, f *ast.File, call *ast.CallExpr, recv ast.Expr) (stmts []ast.Stmt, results []string, ok bool) {
+	return nz.inlineStmtsP(h, p, f, call, recv, nil)
+}
+
+// propagation describes the statement that follows `lhs… := helper(…)` when it is the canonical
+// `if err != nil { return … }`: the helper's own error returns can then leave the caller directly (see fuse).
+type propagation struct {
+	lhs []string   // names on the left of the call statement ("_" allowed)
+	ret []ast.Expr // results of the caller's return
+	// tail: the call statement is `return helper(…)` and the helper's result types are identical to the caller's, so
+	// each `return e…` of the helper is a `return e…` of the caller (after the helper's deferred calls)
+	tail bool
+}
+
+// nonNilErrorReturns: for each return statement of the helper (source order, function literals skipped) whether its last
+// result is an expression of a concrete (non-interface) type, i.e. certainly a non-nil error once boxed.
+func nonNilErrorReturns(h *helper) []bool {
+	var out []bool
+	info := h.pkg.TypesInfo
+	// guarded[ret] = the return sits in the body of `if X != nil { … }` (X an identifier, not assigned in that body before
+	// the return) and returns X as its error
+	guarded := map[*ast.ReturnStmt]bool{}
+	ast.Inspect(h.body(), func(n ast.Node) bool {
+		ifs, ok := n.(*ast.IfStmt)
+		if !ok {
+			return true
+		}
+		be, ok := ifs.Cond.(*ast.BinaryExpr)
+		if !ok || be.Op != token.NEQ {
+			return true
+		}
+		x, ok1 := be.X.(*ast.Ident)
+		nl, ok2 := be.Y.(*ast.Ident)
+		if !ok1 || !ok2 || nl.Name != "nil" {
+			return true
+		}
+		for _, st := range ifs.Body.List {
+			if as, ok := st.(*ast.AssignStmt); ok {
+				for _, l := range as.Lhs {
+					if id, ok := l.(*ast.Ident); ok && id.Name == x.Name {
+						return true // reassigned: give up on this block
+					}
+				}
+			}
+			if rs, ok := st.(*ast.ReturnStmt); ok && len(rs.Results) > 0 {
+				if id, ok := rs.Results[len(rs.Results)-1].(*ast.Ident); ok && id.Name == x.Name {
+					guarded[rs] = true
+				}
+				break
+			}
+			if _, simple := st.(*ast.ExprStmt); !simple {
+				if _, isAssign := st.(*ast.AssignStmt); !isAssign {
+					break // anything with control flow: stop looking
+				}
+			}
+		}
+		return true
+	})
+	ast.Inspect(h.body(), func(n ast.Node) bool {
+		switch x := n.(type) {
+		case *ast.FuncLit:
+			return false
+		case *ast.ReturnStmt:
+			nn := guarded[x]
+			if len(x.Results) > 0 && info != nil {
+				if tv, ok := info.Types[x.Results[len(x.Results)-1]]; ok && tv.Type != nil && !tv.IsNil() {
+					if _, isIface := tv.Type.Underlying().(*types.Interface); !isIface {
+						if b, isBasic := tv.Type.(*types.Basic); !isBasic || b.Kind() != types.UntypedNil {
+							nn = true
+						}
+					}
+				}
+			}
+			out = append(out, nn)
+		}
+		return true
+	})
+	return out
+}
+
+func (nz *normalizer) inlineStmtsP(h *helper, p *packages.Package, f *ast.File, call *ast.CallExpr, recv ast.Expr, prop *propagation) (stmts []ast.Stmt, results []string, ok bool) {
 	if !nz.hygienic(h, p, f, call.Pos()) {
 		return nil, nil, false
 	}
@@ -667,6 +748,11 @@ func (nz *normalizer) inlineStmts(h *helper, p *packages.Package, f *ast.File, c
 	label := fmt.Sprintf("inl%d", id)
 	bad := false
 	nret := 0
+	retIdx := 0
+	var nonNil []bool
+	if prop != nil {
+		nonNil = nonNilErrorReturns(h)
+	}
 	// top-level `defer f(pure…)` statements run, last first, at every return that follows them and at the end of the
 	// body (a panic between the defer and the return is the only difference; no function of the module recovers)
 	var deferred []*ast.CallExpr
@@ -712,8 +798,33 @@ func (nz *normalizer) inlineStmts(h *helper, p *packages.Package, f *ast.File, c
 					repl = append(repl, &ast.AssignStmt{Lhs: idents(results), Tok: token.ASSIGN, Rhs: x.Results})
 				}
 				repl = append(repl, runDeferred(deferredAt[curTop])...)
-				repl = append(repl, &ast.BranchStmt{Tok: token.BREAK, Label: ast.NewIdent(label)})
-				nret++
+				retIdx++
+				direct := false
+				if prop != nil && prop.tail && len(x.Results) == len(results) && len(results) > 0 {
+					repl = append(repl, &ast.ReturnStmt{Results: idents(results)})
+					direct = true
+				} else if prop != nil && len(x.Results) == len(results) && len(results) > 0 {
+					last := x.Results[len(x.Results)-1]
+					if id, isId := last.(*ast.Ident); !isId || id.Name != "nil" {
+						// fuse: the caller's `if err != nil { return … }` is decided here, where the error is made
+						var rets []ast.Expr
+						for _, r := range prop.ret {
+							rets = append(rets, substIdents(copyOf(r), prop.lhs, results))
+						}
+						ret := &ast.ReturnStmt{Results: rets}
+						if retIdx-1 < len(nonNil) && nonNil[retIdx-1] {
+							repl = append(repl, ret)
+							direct = true
+						} else {
+								repl = append(repl, &ast.IfStmt{Cond: &ast.BinaryExpr{X: ast.NewIdent(results[len(results)-1]), Op: token.NEQ, Y: ast.NewIdent("nil")},
+							Body: &ast.BlockStmt{List: []ast.Stmt{ret}}})
+						}
+					}
+				}
+				if !direct {
+					repl = append(repl, &ast.BranchStmt{Tok: token.BREAK, Label: ast.NewIdent(label)})
+					nret++
+				}
 				if c.Node() == ast.Node(top) {
 					// a top-level return cannot be replaced through the cursor of its own root
 					for i := range body.List {
@@ -797,6 +908,205 @@ func allPure(es []ast.Expr) bool {
 
 // replaceStmt produces the replacement of statement s (a handled shape whose call is to helper h).
 func (nz *normalizer) replaceStmt(p *packages.Package, f *ast.File, s ast.Stmt) ([]ast.Stmt, bool) {
+	return nz.replaceStmtP(p, f, s, nil, nil)
+}
+
+// propagationFor: if `check` is the canonical `if E != nil { return … }` for the error E assigned by call statement s, and
+// fusing is safe (see fuse conditions in the comment of inlineStmtsP), describe it.
+func (nz *normalizer) propagationFor(p *packages.Package, fd *ast.FuncDecl, s ast.Stmt, check *ast.IfStmt) *propagation {
+	as, ok := s.(*ast.AssignStmt)
+	if !ok || check == nil || check.Else != nil || len(check.Body.List) != 1 || len(as.Lhs) == 0 {
+		return nil
+	}
+	ret, ok := check.Body.List[0].(*ast.ReturnStmt)
+	if !ok {
+		return nil
+	}
+	be, ok := check.Cond.(*ast.BinaryExpr)
+	if !ok || be.Op != token.NEQ {
+		return nil
+	}
+	eid, ok1 := be.X.(*ast.Ident)
+	nid, ok2 := be.Y.(*ast.Ident)
+	if !ok1 || !ok2 || nid.Name != "nil" {
+		return nil
+	}
+	var lhs []string
+	for _, l := range as.Lhs {
+		id, ok := l.(*ast.Ident)
+		if !ok {
+			return nil
+		}
+		lhs = append(lhs, id.Name)
+	}
+	if lhs[len(lhs)-1] != eid.Name || eid.Name == "_" {
+		return nil
+	}
+	call, h, _ := nz.stmtCall(p, s)
+	if call == nil || h == nil || h.sig.Results().Len() != len(lhs) {
+		return nil
+	}
+	// the skipped assignment `lhs = results` on the early-return path must be unobservable: with `=` the variables
+	// must not be mentioned by any function literal of the enclosing function (a deferred closure could read them)
+	if as.Tok == token.ASSIGN && fd != nil {
+		captured := false
+		ast.Inspect(fd.Body, func(n ast.Node) bool {
+			if fl, ok := n.(*ast.FuncLit); ok {
+				ast.Inspect(fl.Body, func(m ast.Node) bool {
+					if id, ok := m.(*ast.Ident); ok {
+						for _, l := range lhs {
+							if l != "_" && id.Name == l {
+								captured = true
+							}
+						}
+					}
+					return true
+				})
+				return false
+			}
+			return true
+		})
+		if captured {
+			return nil
+		}
+		// named results of the enclosing function are assigned by the return anyway, but a bare `return` reads them
+		if len(ret.Results) == 0 {
+			return nil
+		}
+	}
+	if len(ret.Results) == 0 && fd != nil && fd.Type.Results != nil && len(fd.Type.Results.List) > 0 {
+		return nil
+	}
+	// hygiene: the return's expressions are evaluated inside the inlined body, where the helper's own names are in scope
+	declared := map[string]bool{}
+	names, _ := paramList(h)
+	for _, n := range names {
+		declared[n] = true
+	}
+	for i := 0; i < h.sig.Results().Len(); i++ {
+		declared[h.sig.Results().At(i).Name()] = true
+	}
+	ast.Inspect(h.body(), func(n ast.Node) bool {
+		switch x := n.(type) {
+		case *ast.AssignStmt:
+			if x.Tok == token.DEFINE {
+				for _, l := range x.Lhs {
+					if id, ok := l.(*ast.Ident); ok {
+						declared[id.Name] = true
+					}
+				}
+			}
+		case *ast.ValueSpec:
+			for _, id := range x.Names {
+				declared[id.Name] = true
+			}
+		case *ast.RangeStmt:
+			if x.Tok == token.DEFINE {
+				for _, e := range []ast.Expr{x.Key, x.Value} {
+					if id, ok := e.(*ast.Ident); ok {
+						declared[id.Name] = true
+					}
+				}
+			}
+		case *ast.LabeledStmt:
+			declared[x.Label.Name] = true
+		case *ast.TypeSpec:
+			declared[x.Name.Name] = true
+		case *ast.FuncLit:
+			return false
+		}
+		return true
+	})
+	clean := true
+	for _, r := range ret.Results {
+		ast.Inspect(r, func(n ast.Node) bool {
+			switch x := n.(type) {
+			case *ast.FuncLit:
+				clean = false
+				return false
+			case *ast.SelectorExpr:
+				// only the operand can be a local name
+				ast.Inspect(x.X, func(m ast.Node) bool {
+					if id, ok := m.(*ast.Ident); ok {
+						isLHS := false
+						for _, l := range lhs {
+							if l == id.Name {
+								isLHS = true
+							}
+						}
+						if !isLHS && declared[id.Name] {
+							clean = false
+						}
+					}
+					return true
+				})
+				return false
+			case *ast.Ident:
+				isLHS := false
+				for _, l := range lhs {
+					if l == x.Name {
+						isLHS = true
+					}
+				}
+				if !isLHS && declared[x.Name] {
+					clean = false
+				}
+			}
+			return true
+		})
+	}
+	if !clean {
+		return nil
+	}
+	return &propagation{lhs: lhs, ret: ret.Results}
+}
+
+// sameResults: identical result type lists (so that a value returned by the helper is converted exactly as if the caller
+// had returned it: no concrete-pointer-to-interface surprise).
+func sameResults(a, b *types.Signature) bool {
+	if a.Results().Len() != b.Results().Len() || a.Results().Len() == 0 {
+		return false
+	}
+	for i := 0; i < a.Results().Len(); i++ {
+		if !types.Identical(a.Results().At(i).Type(), b.Results().At(i).Type()) {
+			return false
+		}
+	}
+	return true
+}
+
+// substIdents replaces identifiers named from[i] by to[i] in e (selector field names excepted).
+func substIdents(e ast.Expr, from, to []string) ast.Expr {
+	m := map[string]string{}
+	for i := range from {
+		if from[i] != "_" && i < len(to) {
+			m[from[i]] = to[i]
+		}
+	}
+	return astutil.Apply(&ast.ParenExpr{X: e}, func(c *astutil.Cursor) bool {
+		switch x := c.Node().(type) {
+		case *ast.SelectorExpr:
+			if id, ok := x.X.(*ast.Ident); ok {
+				if t, ok := m[id.Name]; ok {
+					x.X = ast.NewIdent(t)
+				}
+				return false
+			}
+		case *ast.KeyValueExpr:
+			// keys of struct literals are field names
+			c2 := x.Value
+			x.Value = substIdents(c2, from, to)
+			return false
+		case *ast.Ident:
+			if t, ok := m[x.Name]; ok {
+				c.Replace(ast.NewIdent(t))
+			}
+		}
+		return true
+	}, nil).(*ast.ParenExpr).X
+}
+
+func (nz *normalizer) replaceStmtP(p *packages.Package, f *ast.File, s ast.Stmt, fd *ast.FuncDecl, check *ast.IfStmt) ([]ast.Stmt, bool) {
 	call, h, recv := nz.stmtCall(p, s)
 	if call == nil {
 		return nil, false
@@ -812,7 +1122,14 @@ func (nz *normalizer) replaceStmt(p *packages.Package, f *ast.File, s ast.Stmt) 
 			return nil, false
 		}
 	}
-	stmts, results, ok := nz.inlineStmts(h, p, f, call, recv)
+	var prop *propagation
+	if check != nil {
+		prop = nz.propagationFor(p, fd, s, check)
+	}
+	if rs, ok := s.(*ast.ReturnStmt); ok && len(rs.Results) == 1 && nz.curSig != nil && sameResults(nz.curSig, sig) {
+		prop = &propagation{tail: true}
+	}
+	stmts, results, ok := nz.inlineStmtsP(h, p, f, call, recv, prop)
 	if !ok {
 		return nil, false
 	}
@@ -832,15 +1149,23 @@ func (nz *normalizer) replaceStmt(p *packages.Package, f *ast.File, s ast.Stmt) 
 // rewriteBlock walks statement lists and replaces helper-call statements.
 func (nz *normalizer) rewriteBlock(p *packages.Package, f *ast.File, fd *ast.FuncDecl, root ast.Node) {
 	var lists func(n ast.Node)
+	// signature of the function whose statements are being rewritten (for `return helper(…)`: see sameResults)
+	var curSig *types.Signature
+	if fd != nil && p.TypesInfo != nil {
+		if obj := p.TypesInfo.Defs[fd.Name]; obj != nil {
+			curSig, _ = obj.Type().(*types.Signature)
+		}
+	}
+	nz.curSig = curSig
 	fix := func(list []ast.Stmt) []ast.Stmt {
 		var out []ast.Stmt
-		for _, s := range list {
+		for si, s := range list {
 			// if / switch with an init statement that is a helper call: hoist the init into an enclosing block
 			switch x := s.(type) {
 			case *ast.IfStmt:
 				nz.hoistIfInit(p, f, x)
 				if x.Init != nil {
-					if repl, ok := nz.replaceStmt(p, f, x.Init); ok {
+					if repl, ok := nz.replaceStmtP(p, f, x.Init, fd, x); ok {
 						x.Init = nil
 						lists(x)
 						out = append(out, &ast.BlockStmt{List: append(repl, x)})
@@ -850,7 +1175,13 @@ func (nz *normalizer) rewriteBlock(p *packages.Package, f *ast.File, fd *ast.Fun
 			case *ast.LabeledStmt:
 				// keep labels attached to their statement
 			}
-			if repl, ok := nz.replaceStmt(p, f, s); ok {
+			var check *ast.IfStmt
+			if si+1 < len(list) {
+				if nx, ok := list[si+1].(*ast.IfStmt); ok && nx.Init == nil {
+					check = nx
+				}
+			}
+			if repl, ok := nz.replaceStmtP(p, f, s, fd, check); ok {
 				out = append(out, repl...)
 				continue
 			}
@@ -871,7 +1202,15 @@ func (nz *normalizer) rewriteBlock(p *packages.Package, f *ast.File, fd *ast.Fun
 		ast.Inspect(n, func(x ast.Node) bool {
 			switch b := x.(type) {
 			case *ast.FuncLit:
+				saved := nz.curSig
+				nz.curSig = nil
+				if p.TypesInfo != nil {
+					if t := p.TypesInfo.TypeOf(b); t != nil {
+						nz.curSig, _ = t.(*types.Signature)
+					}
+				}
 				b.Body.List = fix(b.Body.List)
+				nz.curSig = saved
 				return false
 			case *ast.BlockStmt:
 				b.List = fix(b.List)
@@ -973,6 +1312,22 @@ func (nz *normalizer) rewriteExprs(p *packages.Package, f *ast.File, fd *ast.Fun
 		}, nil).(ast.Expr)
 		if !okSub {
 			return true
+		}
+		if h.sig.Results().Len() != 1 {
+			// `return f(x)` forwarding several results: the substituted call stands for itself (a conversion or parentheses
+			// around a multi-value call would not compile); its result types are those of the helper by Go's return rule
+			inner := e
+			if pe, ok := inner.(*ast.ParenExpr); ok {
+				inner = pe.X
+			}
+			if _, isCall := inner.(*ast.CallExpr); !isCall {
+				return true
+			}
+			c.Replace(inner)
+			h.inl++
+			nz.changed[f] = p
+			nlog("substituted %s at %s", h.name, p.Fset.Position(call.Pos()))
+			return false
 		}
 		// the call's static result type is kept by a conversion
 		rt := h.sig.Results().At(0).Type()
